@@ -10,6 +10,7 @@
 
 mod ops;
 mod ops2;
+mod ops3;
 mod place;
 mod util;
 
